@@ -19,9 +19,9 @@ import (
 
 func init() {
 	ev.Register(&ev.Check{
-		ID:    "C18",
-		Level: "exploration",
-		Rule: "enum: ALL value lists of <= 3 (thorough 4) items over {1,1.5,\"a\",\"1\",true,null,\"b\"} incl. duplicates x 7 layouts (one line, one per line, // comments, /* */ comments, comment-only lines, blank lines, CRLF): schema `v // {enum: @E}` + rule must give the same verdict as the inline list on 14 probes; duplicate values <=> rule Check fails; Values()/GetAST() list the literals in source order. regex: ALL strings <= 4 (5) over {a b . * + ? | ( ) [ ] ^ $ \\ / \"} that regexp.Compile accepts, written /P/ with / escaped: type @T, inline {regex: P} and regexp.MatchString must agree on ALL strings <= 3 over {a,b,/,\",\\}; Example() of the regex type matches P; Len == len(/P/) with trailing text. Non-trivial = distinct (list, layout) or pattern.",
+		ID:             "C18",
+		Level:          "exploration",
+		Rule:           "enum: ALL value lists of <= 3 (thorough 4) items over {1,1.5,\"a\",\"1\",true,null,\"b\"} incl. duplicates x 7 layouts (one line, one per line, // comments, /* */ comments, comment-only lines, blank lines, CRLF): schema `v // {enum: @E}` + rule must give the same verdict as the inline list on 14 probes; duplicate values <=> rule Check fails; Values()/GetAST() list the literals in source order. regex: ALL strings <= 4 (5) over {a b . * + ? | ( ) [ ] ^ $ \\ / \"} that regexp.Compile accepts, written /P/ with / escaped: type @T, inline {regex: P} and regexp.MatchString must agree on ALL strings <= 3 over {a,b,/,\",\\}; Example() of the regex type matches P; Len == len(/P/) with trailing text. Non-trivial = distinct (list, layout) or pattern.",
 		Run:            run,
 		Replay:         replay,
 		QuickBudget:    80 * time.Second,
